@@ -5,6 +5,8 @@ import PsutilModel.Model.C10Front
 import PsutilModel.Model.C10Conc
 import PsutilModel.Model.C10Dict
 import PsutilModel.Spec.C10
+import PsutilModel.Spec.C10Out
+import PsutilModel.Spec.C10Plat
 open Lean Psutil Psutil.Proto Psutil.C10
 
 structure DSt where
@@ -110,12 +112,10 @@ def specCall (h : List Op) (c : Call) : Out :=
   | .dict r => if c.perdev then .dict r else .total (Spec.totalOf r)
   | o => o
 
+/-- the past of `fn` as `Spec.prevPresent` reads it (`Spec.pastEntry`, the definition `C10_floor_sound` is about),
+    each entry with the result promised for it -/
 def pastOf (fn : Fn) (fh : List (FOp × Out)) : List (Option (Bool × Bool × List Key) × Out) :=
-  fh.filterMap fun (op, o) =>
-    match op with
-    | .call c => if c.fn = fn then some (some (c.nowrap, c.perdev, c.listing.map (·.1)), o) else none
-    | .clear f => if f = fn then some (none, o) else none
-    | .clearAll => some (none, o)
+  fh.filterMap fun (op, o) => (Spec.pastEntry fn op).map fun e => (e, o)
 
 /-- lower bounds the property statement puts on a per-device `nowrap=True` result: for every
     device that stayed listed by the kernel since the previous per-device `nowrap=True` call of the
@@ -173,7 +173,19 @@ def handle (d : DSt) (j : Json) : R (DSt × Json) := do
   if op == "names" then
     return (d, jObj [("disk", Json.str (nameStr .disk)), ("net", Json.str (nameStr .net)),
                      ("diskper", Json.str (nameStr .diskPer)),
-                     ("sample_under_lock", Json.bool cfg.sampleUnderLock)])
+                     ("sample_under_lock", Json.bool cfg.sampleUnderLock),
+                     ("sample_under_lock_disk", Json.bool Gen.C10.sampleUnderLockDisk),
+                     ("sample_under_lock_net", Json.bool Gen.C10.sampleUnderLockNet)])
+  if op == "diskline" then
+    -- one /proc/diskstats line, `vals[i]` = numeric value of field i (0 at the name): the extracted branch table
+    -- against the kernel's documented layout
+    let vals ← field j "vals" >>= asList asNat
+    let jc (r : Option (Nat × List Nat)) : Json := match r with
+      | none => jObj [("kind", "exc"), ("exc", "ValueError")]
+      | some (i, cs) => jObj [("kind", "line"), ("name_idx", jNat i), ("counters", jList jNat cs)]
+    return (d, jObj [("model", jc (countersOf layouts vals)),
+                     ("spec", if Spec.isKernelLineLength vals.length
+                              then jc (some (Spec.kernelNameIdx, Spec.kernelCounters vals)) else Json.null)])
   if op == "sched" then
     let acts ← field j "acts" >>= asList parseAct
     match runC cfg Sys.init acts with
